@@ -38,5 +38,7 @@ def run_rules(chk, prop, fnames, spec_by_fn=None, default_spec=None):
         from vcgen import cex
         if (ob.witness or {}).get("engine") == "ALG":
             return cex.replay(ob.witness)
+        if (ob.witness or {}).get("engine") == "direct":
+            return ob.witness           # the obligation was itself decided on concrete inputs of the real code (backend conformance, forwarding): the witness is the replay
         return None
     return replayer
